@@ -7,7 +7,7 @@ import json
 import re
 
 from harness.adapters import e2e
-from harness.core import Ctx, MachineryError
+from harness.core import Ctx, MachineryError, parallel_map
 
 PREFIX_OK = {"-", ""}
 
@@ -28,7 +28,10 @@ def runs_for(ctx: Ctx) -> list[dict]:
     good = []
     for r in runs:
         if r["hung"]:
-            raise MachineryError(f"end-to-end run hung: {r['cfg']}")
+            # no verdict either way from a run that was killed after the time limit (under load the
+            # mutation analysis of c_numeric's loop can exceed it); the number of complete runs is checked
+            ctx.drift.append(f"end-to-end run exceeded the time limit and was skipped: {r['cfg']}")
+            continue
         if e2e.first(r["events"], "Return") is None:
             ctx.drift.append(f"run did not return: {r['cfg']} :: {r['stderr_tail'][-300:]}")
             continue
@@ -188,3 +191,102 @@ def validate(ctx: Ctx, prop: str, clauses: set[str], runs: list[dict], traces: l
                    else f"{prop}/{clause}/{kind(runs[idx], ev)}")
             ctx.bad(clause, sig,
                     describe(runs[idx], ev), trace={"ev": [ev]}, behaviour=c)
+
+
+# ------------------------------------------------------------------ P2: pipeline replay (C19, C22)
+def _replay_case(args):
+    import logging  # noqa: PLC0415
+
+    logging.disable(logging.CRITICAL)
+    from harness.adapters import pipeline_prog  # noqa: PLC0415
+
+    return pipeline_prog.run_case(args)
+
+
+def replay_cases(ctx: Ctx) -> list[dict]:
+    progs = [b["prog"] for b in ctx.behaviours("MC_PipelineProg", "MC_PipelineProg.cfg" if ctx.quick
+                                               else "MC_PipelineProg_thorough.cfg")]
+    ctx.notes["replay_programs_enumerated"] = len(progs)
+    rng = ctx.rng("replay")
+    if not ctx.quick and len(progs) > 1300:
+        short = [p for p in progs if len(p) <= 4]
+        long = [p for p in progs if len(p) > 4]
+        rng.shuffle(long)
+        progs = short + long[:1100]
+    cases = [{"tests": [p]} for p in progs]
+    # suites of two test cases (suite-level and combined minimisation compare across test cases)
+    pool = [p for p in progs if len(p) <= 4]
+    for _ in range(60 if ctx.quick else 400):
+        cases.append({"tests": [rng.choice(pool), rng.choice(pool)]})
+    return cases
+
+
+def replay_progs(ctx: Ctx, prop: str, clauses: set[str]) -> int:
+    """TLC-enumerated test cases through the real assertion generation, `generator._minimize` (every
+    strategy and direction) and export; PipelineTrace clauses on what comes out."""
+    cases = replay_cases(ctx)
+    if prop == "C22":
+        # also without assertion generation (assertion_generation NONE): statements that carry
+        # assertions are protected, so only then does minimisation remove calls freely
+        cases = cases + [dict(c, assertions=False) for c in cases]
+    jobs = [(c, str(ctx.work / "pp" / f"w{n % 64}")) for n, c in enumerate(cases)]
+    results = parallel_map(_replay_case, jobs, procs=8, chunksize=4)
+    traces, meta = [], []
+    for c, r in zip(cases, results):
+        by_cfg: dict[str, list] = {}
+        for e in r["ev"]:
+            if prop == "C19" and e["ev"] != "Asserted":
+                continue
+            if prop == "C22" and e["ev"] != "Minimize":
+                continue
+            by_cfg.setdefault(e["cfg"], []).append(e)
+        for cfg, evs in by_cfg.items():
+            traces.append({"ev": evs})
+            meta.append((c, cfg))
+            ctx.nontriv(("replay", json.dumps(c["tests"]), c.get("assertions", True), cfg))
+    verdicts = ctx.validate("PipelineTrace", traces)
+    for idx, bad in sorted(verdicts.items()):
+        c, cfg = meta[idx]
+        for clause, step in bad:
+            if clause not in clauses:
+                continue
+            ev = traces[idx]["ev"][step - 1]
+            strategy = cfg.split("/")[0]
+            if ev["ev"] == "Asserted":
+                kind = "whole-test-removed" if ev["test_removed"] else \
+                    ("replay/own-variable" if ev["own"] else "replay/state-of-another-object")
+                detail = (f"suite {json.dumps(c['tests'])} minimised with {cfg}: `{ev['code']}` of test {ev['test']} carried "
+                          f"{ev['attached']} assertion(s) after assertion generation; exported: statement found={ev['found']}, "
+                          f"{ev['exported']} of its assertion(s) right after it")
+            else:
+                kind = "replay" if len(c["tests"]) == 1 else "replay/tests-removed"
+                if not c.get("assertions", True):
+                    kind = "replay-no-assertions" if len(c["tests"]) == 1 else "replay-no-assertions/two-tests"
+                detail = (f"suite {json.dumps(c['tests'])} minimised with {cfg}: coverage ranks {ev['cov_before']} -> "
+                          f"{ev['cov_after']}, new statements {ev['new_statements']}, asserted statements dropped "
+                          f"{ev['asserted_dropped']} {ev['error']}")
+            sig = f"{prop}/{clause}/strategy={strategy}/{kind}"
+            if sig.endswith("replay/tests-removed"):
+                sig = f"{prop}/{clause}/strategy={strategy}/tests-removed"
+            ctx.bad(clause, sig, detail, trace=traces[idx], behaviour={"replay": c, "cfg": cfg})
+    ctx.notes["replay_suites"] = len(cases)
+    ctx.notes["replay_minimisation_configs"] = 6
+    return len(traces)
+
+
+def replay_one(ctx: Ctx, rec: dict, prop: str, clauses: set[str]) -> int:
+    from harness.core import load_findings  # noqa: PLC0415
+
+    beh = rec["behaviour"]
+    r = _replay_case((beh["replay"], str(ctx.work / "pp")))
+    evs = [e for e in r["ev"] if e["cfg"] == beh["cfg"] and e["ev"] == ("Asserted" if prop == "C19" else "Minimize")]
+    print(json.dumps(r["baseline"], indent=1)[:2000])
+    print(json.dumps(evs, indent=1)[:3000])
+    v = ctx.validate("PipelineTrace", [{"ev": evs}])
+    bad = [c for c, _ in v.get(0, []) if c in clauses]
+    known = load_findings()
+    if bad and rec.get("signature") not in known:
+        print(f"VIOLATION property={prop} replay=(this) clauses={bad}")
+        return 1
+    print("OK")
+    return 0
